@@ -7,11 +7,9 @@
 // (units/C15/block_edit.rs, units/C15/cfg_edit.rs).
 // ======================================================================================
 
-// ---- il::{Constant, Scalar, Expression}: types, spec vocabulary and contracts proved by unit C04
-//@ mode contracts-only C04
-//@ include units/C04/constant.rs
-//@ include units/C04/expression.rs
-//@ mode full
+// ---- il::{Constant, Scalar, Expression} (types, spec vocabulary, contracts proved by unit C04) are
+// pulled in at the END of this file (the `//@ mode` switch must come last so that a unit which
+// includes this file under `//@ mode contracts-only C15` keeps that mode for everything above it).
 
 // ---- the remaining il types are the REAL ones (extracted; attributes dropped, fields made pub)
 //@ source lib/il/intrinsic.rs
@@ -235,15 +233,31 @@ impl Program {
 pub open spec fn program_wf(p: Program) -> bool { p.program_wf() }
 
 impl Program {
-    /// `fs` lists exactly the stored functions (each stored function at least once, nothing else)
+    /// `f` is (the value of) one of the stored functions.  Opaque: the hidden existential would
+    /// otherwise form a matching loop with the completeness half of `lists_functions`;
+    /// `reveal(Program::holds_function)` where the key is needed.
+    #[verifier::opaque]
+    pub open spec fn holds_function(&self, f: Function) -> bool {
+        exists|k: usize| #![trigger self.functions@.contains_key(k)] self.functions@.contains_key(k) && *self.functions@[k] == f
+    }
+
+    /// `fs` lists exactly the stored functions (every listed item is stored, every stored function is listed)
     pub open spec fn lists_functions(&self, fs: Seq<&Function>) -> bool {
-        &&& forall|i: int| 0 <= i < fs.len() ==> exists|k: usize| self.functions@.contains_key(k) && *#[trigger] fs[i] == *self.functions@[k]
-        &&& forall|k: usize| self.functions@.contains_key(k) ==> exists|i: int| 0 <= i < fs.len() && *#[trigger] fs[i] == *#[trigger] self.functions@[k]
+        &&& forall|i: int| 0 <= i < fs.len() ==> self.holds_function(*#[trigger] fs[i])
+        &&& forall|k: usize| #![trigger self.functions@.contains_key(k)] self.functions@.contains_key(k) ==>
+                exists|i: int| 0 <= i < fs.len() && *#[trigger] fs[i] == *self.functions@[k]
     }
 
     /// no stored function has this address
     pub open spec fn no_function_at(&self, address: u64) -> bool {
-        forall|k: usize| self.functions@.contains_key(k) ==> (*#[trigger] self.functions@[k]).address != address
+        forall|k: usize| #![trigger self.functions@.contains_key(k)] self.functions@.contains_key(k) ==> (*self.functions@[k]).address != address
+    }
+
+    pub proof fn lemma_holds_function(&self, k: usize)
+        requires self.functions@.contains_key(k),
+        ensures self.holds_function(*self.functions@[k]),
+    {
+        reveal(Program::holds_function);
     }
 
     pub proof fn lemma_lists_functions(&self, v: Seq<&Function>, s: Seq<(&usize, &RC<Function>)>)
@@ -254,11 +268,12 @@ impl Program {
     {
         if v.len() != s.len() { return; }
         graph::lemma_seq_lists_map(s, self.functions@);
-        assert forall|i: int| 0 <= i < v.len() implies exists|k: usize| self.functions@.contains_key(k) && *#[trigger] v[i] == *self.functions@[k] by {
+        assert forall|i: int| 0 <= i < v.len() implies self.holds_function(*#[trigger] v[i]) by {
             assert(self.functions@.contains_pair(*s[i].0, *s[i].1));
-            assert(self.functions@.contains_key(*s[i].0) && *v[i] == *self.functions@[*s[i].0]);
+            self.lemma_holds_function(*s[i].0);
         }
-        assert forall|k: usize| self.functions@.contains_key(k) implies exists|i: int| 0 <= i < v.len() && *#[trigger] v[i] == *#[trigger] self.functions@[k] by {
+        assert forall|k: usize| #![trigger self.functions@.contains_key(k)] self.functions@.contains_key(k) implies
+            exists|i: int| 0 <= i < v.len() && *#[trigger] v[i] == *self.functions@[k] by {
             let i = choose|i: int| 0 <= i < s.len() && *(#[trigger] s[i]).0 == k;
             assert(self.functions@.contains_pair(*s[i].0, *s[i].1));
             assert(*v[i] == *self.functions@[k]);
@@ -273,7 +288,7 @@ impl Program {
     {
         if n != s.len() { return; }
         graph::lemma_seq_lists_map(s, self.functions@);
-        assert forall|k: usize| self.functions@.contains_key(k) implies (*#[trigger] self.functions@[k]).address != address by {
+        assert forall|k: usize| #![trigger self.functions@.contains_key(k)] self.functions@.contains_key(k) implies (*self.functions@[k]).address != address by {
             let i = choose|i: int| 0 <= i < s.len() && *(#[trigger] s[i]).0 == k;
             assert(self.functions@.contains_pair(*s[i].0, *s[i].1));
         }
@@ -503,7 +518,7 @@ impl Program {
 //@ rewrite 1 `for function in &self.functions {` => `for function in it: &self.functions {` ## R-ghost-iter-name: names the ghost iterator of the for loop so that invariants can mention it; no executable change
 //@ spec
     ensures
-        /*@found*/ r matches Some(f) ==> f.address == address && exists|k: usize| self.functions@.contains_key(k) && *f == *#[trigger] self.functions@[k],
+        /*@found*/ r matches Some(f) ==> f.address == address && self.holds_function(*f),
         /*@missing*/ r is None ==> self.no_function_at(address),
 //@ loop 0
     invariant
@@ -513,8 +528,16 @@ impl Program {
 //@ before 0 `return Some(function.1)`
     proof {
         assert(self.functions@.contains_pair(*function.0, *function.1));
+        self.lemma_holds_function(*function.0);
     }
 //@ after 0 `return Some(function.1); }`
     proof { self.lemma_no_function_at(it.seq(), it.index@ + 1, address); }
 //@ end
 }
+
+// ---- il::{Constant, Scalar, Expression}: types, spec vocabulary and contracts proved by unit C04.
+// KEEP THIS LAST (see the note at the top).
+//@ mode contracts-only C04
+//@ include units/C04/constant.rs
+//@ include units/C04/expression.rs
+//@ mode full
